@@ -103,9 +103,9 @@ static size_t scripted_cb(void *ud, unsigned char *buf, size_t size)
     return n;
 }
 
-enum { A_AEAD, A_HASH, A_HASHINC, A_HMAC, A_HMACINC, A_HKDF, A_HKDFINC, A_PBKDF2, A_PRNG, A_CLEAN, A_FREE, A_N };
+enum { A_AEAD, A_HASH, A_HASHINC, A_HMAC, A_HMACINC, A_HKDF, A_HKDFINC, A_PBKDF2, A_PRNG, A_CLEAN, A_FREE, A_SHORT, A_N };
 static const char *const API_NAME[A_N] = {"aead/siv", "tinyjambu_hash", "hash-incremental", "tinyjambu_hmac", "hmac-incremental", "tinyjambu_hkdf",
-                                          "hkdf-incremental", "tinyjambu_pbkdf2", "prng", "tinyjambu_clean", "free"};
+                                          "hkdf-incremental", "tinyjambu_pbkdf2", "prng", "tinyjambu_clean", "free", "decrypt-short-input"};
 
 /* One execution of one API case.  Everything that the caller can observe goes into *res. */
 static void run_api(int api, const size_t p[5], long idx, int pass, res_t *res)
@@ -152,6 +152,24 @@ static void run_api(int api, const size_t p[5], long idx, int pass, res_t *res)
             ++n_calls;
             must_be_defined(m2, mlen, "plaintext region after rejection"); res_add(res, m2, mlen); res_add(res, &rc, sizeof rc);
         }
+        check_canaries();
+        break; }
+    case A_SHORT: {
+        int v = (int)p[0];
+        size_t cl = p[1], ml = 0x77, i2;
+        uint8_t *k = IN(0, (size_t)AE[v].ks, idx, &r, 0), *n = IN(1, 12, idx, &r, 0), *c, *m2;
+        int rc;
+        g_api = AE[v].name;
+        /* the short input starts right after a guard page in one pass and ends right before one in the other */
+        c = gb_place(&B[3], cl, pass ? PL_END : PL_START, 0, nullmode, 0x42);
+        if (cl) gb_readonly(&B[3]);
+        m2 = OUT(5, 8, idx, junk, 0);
+        if (GUARD_TRY()) { rc = AE[v].d(m2, &ml, c, cl, NULL, 0, n, k); GUARD_END(); } else { report_fault(); break; }
+        ++n_calls;
+        res_add(res, &rc, sizeof rc);
+        if (rc >= 0) { char key[96]; snprintf(key, sizeof key, "short-input-accepted:%s", AE[v].name); emit_viol(key, "clen=%zu returned %d", cl, rc); }
+        VG_DEF(m2, 8); MSAN_UNPOISON(m2, 8);
+        for (i2 = 0; i2 < 8; ++i2) if (m2[i2] != junk) { char key[96]; snprintf(key, sizeof key, "short-input-wrote-plaintext:%s", AE[v].name); emit_viol(key, "clen=%zu wrote to the plaintext buffer", cl); break; }
         check_canaries();
         break; }
     case A_HASH: {
@@ -214,7 +232,7 @@ static void run_api(int api, const size_t p[5], long idx, int pass, res_t *res)
     case A_HKDFINC: {
         tinyjambu_hkdf_state_t *st = (tinyjambu_hkdf_state_t *)STATE(7, sizeof *st, junk);
         uint8_t *key = IN(0, p[1], idx, &r, nullmode), *salt = IN(1, p[2], idx, &r, nullmode), *info = IN(2, p[3], idx, &r, nullmode);
-        size_t total = p[0], done = 0, step = 1 + idx % 97;
+        size_t total = p[0], done = 0, step = p[4] ? p[4] : 1 + idx % 97;
         g_api = "hkdf-incremental";
         if (GUARD_TRY()) { tinyjambu_hkdf_extract(st, key, p[1], salt, p[2]); GUARD_END(); } else { report_fault(); break; }
         while (done < total) {
@@ -224,7 +242,9 @@ static void run_api(int api, const size_t p[5], long idx, int pass, res_t *res)
             if (GUARD_TRY()) { rc = tinyjambu_hkdf_expand(st, info, p[3], out, n); GUARD_END(); } else { report_fault(); done = total; break; }
             ++n_calls; must_be_defined(out, n, "okm"); res_add(res, out, n); res_add(res, &rc, sizeof rc); n_out_bytes += n;
             check_canaries();
-            done += n; step = step * 3 + 7; if (step > 3000) step = 1 + (step % 61);
+            done += n;
+            if (!p[4]) { step = step * 3 + 7; if (step > 3000) step = 1 + (step % 61); }
+            else if (p[4] == 64 && done >= 64) step = 1;          /* 64 then single bytes */
         }
         if (GUARD_TRY()) { tinyjambu_hkdf_free(st); GUARD_END(); } else { report_fault(); break; }
         must_be_defined(st, sizeof *st, "freed state"); res_add(res, st, sizeof *st);
@@ -326,7 +346,16 @@ int main(int argc, char **argv)
         for (i = 0; i < 6; ++i, ++idx) { static const size_t BG[] = {8159, 8160, 8161, 8192, 65536, (size_t)-1}; if (mine(&a, idx)) do_case(&a, A_HKDF, idx, BG[i], 16, 16, 5, 0); }
         for (i = 0; i < (a.thorough ? 40 : 8); ++i, ++idx) { static const size_t T[] = {8160, 8161, 8200, 9000, 100, 1000, 8159, 33}; if (mine(&a, idx)) do_case(&a, A_HKDFINC, idx, T[i % 8], L[i % 8], L[(i + 3) % 8], L[(i + 5) % 8], 0); }
     }
+    if (WANT("hkdf")) {        /* expand calls that END on a 32-byte block boundary, followed by further calls */
+        static const size_t L[] = {0, 1, 31, 32, 33, 64, 65, 100};
+        for (i = 0; i < 12; ++i, ++idx) { static const size_t T[] = {64, 96, 128, 65, 70, 160}; static const size_t ST[] = {32, 64};
+            if (mine(&a, idx)) do_case(&a, A_HKDFINC, idx, T[i % 6], L[i % 8], L[(i + 2) % 8], L[(i + 4) % 8], ST[i / 6]); }
+    }
+    if (WANT("aead")) {        /* inputs shorter than the tag: nothing outside [c, c+clen) may be touched, nothing written */
+        for (i = 0; i < 6; ++i) for (j = 0; j < 8; ++j, ++idx) if (mine(&a, idx)) do_case(&a, A_SHORT, idx, (size_t)i, (size_t)j, 0, 0, 0);
+    }
     if (WANT("pbkdf2")) {
+        for (i = 41; i <= 80; i += (a.thorough ? 1 : 3), ++idx) if (mine(&a, idx)) do_case(&a, A_PBKDF2, idx, 40, (size_t)(i % 9), (size_t)i, 2, 0);   /* long salts */
         for (i = 0; i <= 100; i += (a.thorough ? 1 : 2), ++idx) if (mine(&a, idx)) do_case(&a, A_PBKDF2, idx, (size_t)i, (size_t)((i * 13) % 130), (size_t)((i * 7) % 41), (size_t)(i % 4), 0);
         if (mine(&a, idx)) do_case(&a, A_PBKDF2, idx, 8190, 70, 9, 1, 0);
         ++idx;
